@@ -482,10 +482,27 @@ def r4(ctx):
         return
     pair_call = (sn or so)[0]
     # the pair split is applied to the whole segment
+    # sibling skip idiom: `query.split('&').filter(|c| !c.is_empty())` instead of `if c.is_empty() { continue }`: a filter
+    # stage hands its elements on as they are; its predicate must be exactly "the whole segment is not empty"
+    SEG = r"Iterator::next$|IntoIterator::into_iter$|str>::split$"
+    flt = None
+    fl = [x for x in b.calls(r"Iterator::filter$") if "summary_operand" in x[1]]
+    if len(fl) == 1:
+        src_, st_ = pipeline_of(b, fl[0][1]["args"][0])
+        if not [x for x in st_ if x[0] != "into_iter"] and src_ and src_[0] == "def" and src_[1]["kind"] == "call" and src_[1]["term"] is sp[1]:
+            pod = b.origin_def(fl[0][1]["args"][fl[0][1]["summary_operand"]])
+            if pod and pod[0] == "def" and pod[1]["kind"] == "assign" and pod[1]["stmt"]["rv"]["k"] == "unop" and pod[1]["stmt"]["rv"].get("op") == "Not":
+                cod = b.origin_def(pod[1]["stmt"]["rv"]["x"])
+                if cod and cod[0] == "def" and cod[1]["kind"] == "call" and re.search(r"str>::is_empty$", cod[1]["term"]["callee"]) and not [c_ for c_ in b.slice_op(cod[1]["term"]["args"][0]).callee_names() if not re.search(SEG, c_)]:
+                    flt = fl[0]
+    if fl and flt is None:
+        yield VIOL("C10-R4", "qsm/skip-conditions", "the segment list is filtered by something other than `!segment.is_empty()` on the whole segment", where=b.span_of_block(fl[0][0]))
+        return
+    SEGF = SEG + (r"|Iterator::filter$|str>::is_empty$" if flt else "")
     ps_ = b.slice_op(pair_call[1]["args"][0])
-    if [c_ for c_ in ps_.callee_names() if not re.search(r"Iterator::next$|IntoIterator::into_iter$|str>::split$", c_)]:
+    if [c_ for c_ in ps_.callee_names() if not re.search(SEGF, c_)]:
         yield VIOL("C10-R4", "qsm/pair-subject", "the name/value split is not applied to the '&'-separated segment as it is", where=b.span_of_block(pair_call[0]))
-    nx = [x for x in b.calls(r"Iterator::next$") if "Split<" in x[1].get("resolved_full", "")]
+    nx = [x for x in b.calls(r"Iterator::next$") if "Split<" in x[1].get("resolved_full", "") and not x[1].get("summary")]
     n = one(nx, "segment iteration")
     st = b.term(n[1]["target"])
     some = [bb for v, bb in st["targets"] if v == 1][0]
@@ -503,16 +520,22 @@ def r4(ctx):
         a, ts, fs = switch_on_call(b, bi)
         if a is not None and b.in_cycle(a):
             skips.append((bi, t, a, ts, fs))
-    if len(skips) != 1:
-        yield VIOL("C10-R4", "qsm/skip-conditions", "expected exactly one skip condition in the loop (`component.is_empty()`), found %d" % len(skips), where=loc(b.j["span"]))
+    if flt is not None and not skips:
+        # the filter stage is the (only) skip: every element the loop sees is a non-empty segment
+        yield PASS("C10-R4", "qsm/skip-subject", "only `.filter(|c| !c.is_empty())` on the split('&') iterator skips a segment", [site(b, flt[0], "filter")])
+        skips = [(flt[0], None, n[0], None, some)]
+    elif len(skips) != 1 or flt is not None:
+        yield VIOL("C10-R4", "qsm/skip-conditions", "expected exactly one skip condition in the loop (`component.is_empty()`), found %d" % (len(skips) + (1 if flt else 0)), where=loc(b.j["span"]))
         return
     bi, t, a, ts, fs = skips[0]
-    od = b.origin_def(t["args"][0])
+    od = b.origin_def(t["args"][0]) if t is not None else None
     direct = od and ((od[0] == "multi" and od[1] == comp_local) or (od[0] == "place" and od[1]["local"] == n[1]["dest"]["local"]) or (od[0] == "def" and od[1].get("kind") == "assign" and s_is_payload(od[1], n[1]["dest"]["local"])))
-    if not direct and comp_local is not None:
+    if not direct and comp_local is not None and t is not None:
         sl = b.slice_op(t["args"][0])
         direct = comp_local in sl.locals and not [c for c in sl.calls if not re.search(r"Iterator::next$|IntoIterator::into_iter$|str>::split$", c[1]["callee"])]
-    if not direct:
+    if t is None:
+        pass
+    elif not direct:
         yield VIOL("C10-R4", "qsm/skip-subject", "the skip test is not applied to the whole '&'-separated segment (e.g. it tests the name after splitting: `=v` would be dropped)", where=b.span_of_block(bi))
     else:
         yield PASS("C10-R4", "qsm/skip-subject", "only `component.is_empty()` skips a segment", [site(b, bi, "is_empty")])
